@@ -161,7 +161,24 @@ static Outcome run_fcgi(Case const &c, SplitInfo &si) {
     return ok();
 }
 
-static Outcome p_frontends(Case const &c) {
+// Known finding (known_findings.json: C01 http:path_info:plus-in-path-decoded-as-blank): the embedded HTTP server decodes the URI
+// *path* with the form decoder, so a raw '+' arrives as a blank while SCGI/FastCGI deliver '+'.  The repository's own
+// file_server_test.py expects that behaviour, so it is recorded, not repaired.  Excluded by construction so that the search
+// continues behind it: a raw '+' in the path part of an HTTP request line is sent as %2B (counted); p_plus below is the one place
+// that still sends it raw and reports the finding under its own signature.
+static Case without_raw_plus_in_http_path(Case c, long &n) {
+    for (auto &q : c.reqs) {
+        size_t eol = q.http.find("\r\n"), sp = q.http.find(' ');
+        if (sp == std::string::npos || eol == std::string::npos || sp > eol) continue;
+        size_t end = q.http.find_first_of(" ?", sp + 1);
+        for (size_t p = sp + 1; p < end && p < q.http.size(); p++) if (q.http[p] == '+') { q.http.replace(p, 1, "%2B"); end += 2; p += 2; n++; }
+    }
+    return c;
+}
+static Outcome p_frontends(Case const &c0) {
+    long nplus = 0;
+    Case const c = without_raw_plus_in_http_path(c0, nplus);
+    if (nplus) VR.excl("http.raw_plus_in_path_sent_as_%2B(known finding)", nplus);
     VR.eval();
     V_CHECK(g_fx->alive(), "service-died", "service::run() returned: " + g_fx->loop_exception);
     SplitInfo si;
@@ -493,6 +510,23 @@ static rc::Gen<Case> gen_case() {
     });
 }
 
+// The known finding itself: GET <script>/<a>+<b> with the '+' raw.
+struct PlusCase { int mount = 0; std::string a = "a", b = "b";
+    void encode(vr::CaseWriter &w) const { w.i(mount).s(a).s(b); }
+    static PlusCase decode(vr::CaseReader &r) { PlusCase c; c.mount = (int)(((r.i() % 3) + 3) % 3); c.a = r.s(); c.b = r.s(); return c; } };
+static Outcome p_plus(PlusCase const &pc) {
+    VR.eval();
+    Case c; c.mount = pc.mount; c.only_fe = 'h';
+    OneReq q; q.ex.method = "GET"; q.ex.script = SCRIPTS[pc.mount]; q.ex.path = "/" + pc.a + "+" + pc.b;
+    q.http = "GET " + q.ex.script + q.ex.path + " HTTP/1.0\r\n\r\n";
+    c.reqs.push_back(q);
+    SplitInfo si; Outcome o = run_http(c, si);
+    VR.cls("plus.raw_plus_in_http_path");
+    if (!o.ok() && o.sig == "http:path_info") return bad("http:path_info:plus-in-path-decoded-as-blank", o.msg);
+    if (o.ok()) VR.nontrivial(vr::fnv(q.http, 77));
+    return o;
+}
+
 // Exhaustive split enumeration for one short request: every single split point, and every pair of split points whose
 // first element lies in [lo,hi) (around the header/body hand-over), for one front-end.
 static bool enumerate_splits(Case base, char fe, bool pairs) {
@@ -528,6 +562,7 @@ int main(int argc, char **argv) {
     if (!fx.start("{\"http\":{\"script_names\":[\"/sync\",\"/async\"]}}", mount_apps)) { fprintf(stderr, "cannot start the service fixture\n"); return 3; }
     std::vector<std::unique_ptr<vr::PropBase>> props;
     props.push_back(vr::prop<Case>("frontends", gen_case(), p_frontends));
+    if (vr::replay_arg(argc, argv)) props.push_back(vr::prop<PlusCase>("plus", rc::gen::just(PlusCase()), p_plus));   // random units do not repeat it
     int rc = 0;
     if (!vr::replay_arg(argc, argv) && vr::envl("C01_ENUM", 0)) {
         // enumeration mode: a few short requests drawn deterministically from the generator
@@ -535,6 +570,7 @@ int main(int argc, char **argv) {
         long nreq = vr::envl("C01_ENUM", 1);
         bool good = true;
         rc::detail::Configuration dummy; (void)dummy;
+        for (int m = 0; m < 3; m++) { PlusCase pc; pc.mount = m; pc.a = m ? "x" : "file"; pc.b = m == 1 ? "y" : m == 2 ? "q" : "with"; vr::run_direct("plus", pc, p_plus); }     // a failure is recorded in the report; the enumeration goes on
         for (long i = 0; i < nreq && good; i++) {
             Case c;
             bool got = false;
@@ -548,7 +584,7 @@ int main(int argc, char **argv) {
             for (char fe : {'h', 's', 'f'}) good = good && enumerate_splits(c, fe, true);
         }
         VR.finish();
-        rc = good ? 0 : 1;
+        rc = good && VR.failures.empty() ? 0 : 1;
     } else rc = vr::rc_main(argc, argv, props);
     fx.stop();
     if (!fx.loop_exception.empty()) { fprintf(stderr, "%s\n", fx.loop_exception.c_str()); return 1; }
